@@ -266,10 +266,15 @@ def make_cases(run):
     cases = []
     cdir = os.path.join(C.VERIF, "corpus", "c02")
     for n in sorted(os.listdir(cdir)) if os.path.isdir(cdir) else []:
-        cfg, calls = G.parse_script(open(os.path.join(cdir, n)).read().replace("{REPO}", C.REPO))
+        if not n.endswith(".case"):
+            continue
+        cfg, calls = G.parse_script(open(os.path.join(cdir, n)).read().replace("{REPO}", C.REPO).replace("{VERIF}", C.VERIF))
         cases.append(("corpus:" + n, cfg, calls, "corpus"))
     for name, cfg, calls in G.DIRECTED:
         cases.append(("directed:" + name, cfg, calls, "directed"))
+    for i in range(120 if quick else 1500):
+        cfg, calls, kind = G.gen_merge_case(rng)
+        cases.append(("merge:%d" % i, cfg, calls, kind))
     n_rand = 330 if quick else 4000
     maxlen = 40 if quick else 400
     for i in range(n_rand):
